@@ -296,9 +296,10 @@ static void hook (void) {
   long h = sp - start_of_stack + 1;
   if (h > max_sp) max_sp = h;
   if (d > D) note ("C04:call-depth-exceeds-MaxCallDepth", "%ld control frames are active (MaxCallDepth %ld)", d, D);
-  if (sp >= end_of_stack) {
-    char key[120]; snprintf (key, sizeof key, "C04:value-stack-beyond-end_of_stack");
-    note (key, "sp is %ld slots past end_of_stack after %s (StackSize %ld)", (long) (sp - end_of_stack) + 1, opname (last_op), K);
+  /* the configured size is what is allocated; end_of_stack keeps 5 slots of it as slack for instructions that push without checking */
+  if (sp >= start_of_stack + K) {
+    char key[120]; snprintf (key, sizeof key, "C04:value-stack-beyond-StackSize");
+    note (key, "sp is %ld slots past the configured StackSize %ld after %s", (long) (sp - (start_of_stack + K)) + 1, K, opname (last_op));
   }
   if (sp >= start_of_stack && sp < start_of_stack + K) {
     char where[80]; snprintf (where, sizeof where, "on-the-stack-after-%s", opname (last_op));
